@@ -3,7 +3,7 @@ from __future__ import annotations
 
 from pathlib import Path
 
-from .common import VERIF
+from .common import VERIF, per_process
 
 CORPUS = VERIF / "corpus"
 
@@ -84,7 +84,13 @@ def analyse(lang: str, text: str, via_file: bool = True):
         name = LANGS[lang]["file"]
         with open(d / name, "w", newline="") as f:
             f.write(text)
-        cb = scan_path(d)
+        # like a second `codelimit scan` in the same folder: the report of the previous analysis in this directory
+        # is handed to the scanner as its cache (the file was "edited" in between)
+        from codelimit.common.report.Report import Report
+
+        prev = per_process(("analyse-prev", lang), dict)
+        cb = scan_path(d, prev.get("report"))
+        prev["report"] = Report(cb)
         if list(cb.files) != [name]:
             raise RuntimeError(f"scan_path did not analyse {name}: {list(cb.files)}")
         if cb.files[name].language != lang:
